@@ -19,12 +19,36 @@ RULE = ("(1) every matcher expression of the C06 language (all stock matchers) x
         "{None, True, False}; (4) generated test bodies mixing assertThat / assert_that / expectThat with "
         "matching and mismatching pairs and detail-carrying mismatches, loops of 11-14 failing expectations with the "
         "same detail names, endings (skip / expected failure / skip from a cleanup) and the three runners "
-        "(RunTest, SynchronousDeferredRunTest, AsynchronousDeferredRunTest on the real reactor). Non-trivial: non-ASCII or control "
+        "(RunTest, SynchronousDeferredRunTest, AsynchronousDeferredRunTest on the real reactor); "
+        "(5) in those bodies: message and verbose given by keyword or positionally; hostile text and bytes (no lone "
+        "surrogates) as matchee, argument and annotation; matchers whose second match() answers differently from the first "
+        "(the answer to the first call is the verdict of the assertion); every failed expectThat "
+        "is on record under a 'Failed expectation' detail of its own holding the mismatch description, the annotation and, "
+        "when verbose, matchee and matcher - as the MismatchError raised by assertThat / assert_that does; every detail can "
+        "be read; another test of the same class run afterwards succeeds; "
+        "(6) an exhaustive grid of description branches that need a particular argument (%d / %f / {0:d} templates, "
+        "IsInstance of several types, MatchesSetwise left-overs, the long form of binary mismatches for non-text values, "
+        "matchees of the wrong kind, WarningMessage filename= / line=, Path and bytes paths). "
+        "Non-trivial: non-ASCII or control "
         "characters in the matchee, or a nested tree, or verbose, or >= 2 assertions in a body; distinct = "
         "distinct canonical spec.")
 ASSUMPTIONS = [
     "the Deferred matchers of testtools.twistedsupport are covered by C20, not here",
-    "values come from the matcher's documented domain (see C06)",
+    "values come from the matcher's documented domain (see C06); for matchees outside it (Contains on a non-container, "
+    "MatchesException on something that is not an exc_info tuple, ordering comparisons of unrelated types, FileContains on a "
+    "directory, TarballContains on a non-tarball) an exception out of match() is admitted and only a returned mismatch has to "
+    "be describable; StartsWith / EndsWith are given one string, not a tuple of alternatives",
+    "text that travels through assertThat / expectThat / assert_that into a detail holds no lone surrogate (a detail is "
+    "UTF-8 bytes; DESIGN 11.2); sub-checks (1)-(3) do draw lone surrogates",
+    "the interpreter runs without -b / -bb / -W error / -X warn_default_encoding and in UTF-8 mode (./check pins "
+    "PYTHONUTF8=1: scratch files hold UTF-8 text and FileContains reads with the default encoding); warnings are ignored",
+    "Linux: the sticky bit can be set on a regular file by an unprivileged user",
+    "the AsynchronousDeferredRunTest bodies are synchronous and run on the real reactor with a 300 s timeout: only a "
+    "machine stalled for that long between two reactor iterations could turn a correct run into a TimeoutError",
+    "the verbose form of MismatchError is only required to contain 'Matchee:' and str() of the matcher, the non-verbose "
+    "form the mismatch description and the annotation (substring tests, no layout)",
+    "a detail name 'reason' is not generated (expectFailure / skip write the reason under that name with plain addDetail: "
+    "third audit, part B)",
 ]
 
 ANNOT = st.sampled_from(["", "note", "ünï 'q' \"d\"", "line\nbreak"])
@@ -206,7 +230,9 @@ def build_hostile(spec):
             raise ValueError(v)
         m, v = tm.Raises(tm.MatchesException(KeyError(a))), f
     elif k == "FileContains":
-        m = tm.FileContains(matcher=tm.Equals(a))
+        # the file is read as text: the expected contents are text too (bytes against str is the harness's own
+        # mixed-type comparison, a BytesWarning under -b)
+        m = tm.FileContains(matcher=tm.Equals(a.decode("latin-1") if isinstance(a, bytes) else a))
     else:
         raise AssertionError(k)
     if spec.get("tuple") is not None and k in ("Equals", "NotEquals", "Is", "IsInstance", "MatchesPredicate", "Never", "AfterPreprocessing"):
@@ -300,6 +326,15 @@ def run_text_repr(spec):
 
 
 # ---------------------------------------------------------------- (4) assertThat / expectThat in test bodies
+BODY_TEXT = ML.HOSTILE.map(lambda s: "".join(c for c in s if not 0xD800 <= ord(c) <= 0xDFFF))   # see ASSUMPTIONS: lone surrogates
+BODY_BYTES = st.one_of(st.binary(max_size=6), st.sampled_from([b"'", b"\\", b"\xff\n\"", b"\x00"]))
+BODY_HOST_KINDS = ["Equals", "NotEquals", "StartsWith", "EndsWith", "Contains", "MatchesRegex", "DocTestMatches", "IsInstance",
+                   "HasLength", "MatchesPredicate", "Never", "AfterPreprocessing", "SameMembers", "KeysEqual", "MatchesStructure",
+                   "MatchesDict", "AllMatch", "MatchesListwise", "MatchesSetwise"]
+DETAIL_NAMES = ["foo", "bar", "traceback", "Failed expectation", "foo-1", "foo-2"]
+FAMILY_POOL = [0, 1, "a", "é", None, True]      # 1 == True but 1 is not True: assertIs is not assertEqual
+
+
 @st.composite
 def s_body(draw):
     steps = []
@@ -309,22 +344,33 @@ def s_body(draw):
             # the assert* family that TestCase builds on assertThat
             fam = draw(st.sampled_from(["assertEqual", "assertEqual", "assertIn", "assertNotIn", "assertIs", "assertIsNot", "assertIsInstance", "assertIsNone"]))
             steps.append({"how": "assertThat", "family": fam, "kind": "family", "matcher": None,
-                          "value": draw(st.sampled_from([0, 1, "a", "é", None])), "other": draw(st.sampled_from([0, 1, "a", "é", None])),
+                          "value": draw(st.sampled_from(FAMILY_POOL)), "other": draw(st.sampled_from(FAMILY_POOL)),
                           "message": draw(ANNOT), "verbose": False})
             continue
-        kind = draw(st.sampled_from(["int", "str", "details"]))
+        kind = draw(st.sampled_from(["int", "str", "details", "hostile"]))
+        message = draw(ANNOT)
         if kind == "int":
             m = draw(ML.tree("int", 1))
             v = draw(ML.INT)
         elif kind == "str":
             m = draw(ML.tree("str", 1))
             v = draw(ML.STR)
+        elif kind == "hostile":
+            # hostile text / bytes as matchee, matcher argument and annotation, through the assertion methods
+            if draw(st.integers(0, 3)) == 0:
+                a, v = draw(BODY_BYTES), draw(BODY_BYTES)
+            else:
+                a, v = draw(BODY_TEXT), draw(BODY_TEXT)
+            m = {"m": "Hostile", "kind": draw(st.sampled_from(BODY_HOST_KINDS)), "arg": a}
+            message = draw(st.one_of(ANNOT, BODY_TEXT))
         else:
-            m = {"m": "WithDetails", "names": draw(st.lists(st.sampled_from(["foo", "bar", "traceback", "Failed expectation", "foo-1"]), min_size=1, max_size=2, unique=True)),
-                 "matches": draw(st.booleans())}
+            # "then": the verdict of the second and later match() calls (None: the same as the first) - a matchee /
+            # matcher pair that cannot be asked twice (one-shot iterators, callables with side effects)
+            m = {"m": "WithDetails", "names": draw(st.lists(st.sampled_from(DETAIL_NAMES), min_size=1, max_size=2, unique=True)),
+                 "matches": draw(st.booleans()), "then": draw(st.sampled_from([None, None, True, False]))}
             v = 0
-        steps.append({"how": how, "kind": kind, "matcher": m, "value": v, "message": draw(ANNOT),
-                      "verbose": draw(st.booleans())})
+        steps.append({"how": how, "kind": kind, "matcher": m, "value": v, "message": message,
+                      "verbose": draw(st.booleans()), "positional": draw(st.booleans())})
     if draw(st.integers(0, 9)) == 0:
         # a loop of a dozen and more failing expectations carrying the same detail names
         names = draw(st.lists(st.sampled_from(["foo", "bar", "traceback", "Failed expectation"]), min_size=1, max_size=2, unique=True))
@@ -332,13 +378,38 @@ def s_body(draw):
                   "message": None, "verbose": False} for _ in range(draw(st.integers(11, 14)))]
         at = draw(st.integers(0, len(steps)))
         steps[at:at] = burst
-    return {"runner": draw(st.sampled_from(["default", "default", "default", "sync-deferred", "async-deferred"])), "steps": steps, "ending": draw(st.sampled_from(["none", "none", "skip", "xfail", "teardown-skip"])), "user_details": draw(st.lists(st.sampled_from(["foo", "bar", "Failed expectation", "traceback"]), max_size=2, unique=True))}
+    return {"runner": draw(st.sampled_from(["default", "default", "default", "sync-deferred", "async-deferred"])), "steps": steps, "ending": draw(st.sampled_from(["none", "none", "skip", "xfail", "teardown-skip"])), "user_details": draw(st.lists(st.sampled_from(["foo", "bar", "Failed expectation", "traceback", "foo-2"]), max_size=2, unique=True))}
 
 
 def run_body(spec):
     with warnings.catch_warnings():
         warnings.simplefilter("ignore")
         return _run_body(spec)
+
+
+def _matching_size(accepts):
+    """accepts[i][j]: requirement i is met by candidate j.  Size of a maximum one-to-one assignment."""
+    owner = {}
+
+    def aug(i, seen):
+        for j, ok in enumerate(accepts[i]):
+            if ok and j not in seen:
+                seen.add(j)
+                if j not in owner or aug(owner[j], seen):
+                    owner[j] = i
+                    return True
+        return False
+    return sum(1 for i in range(len(accepts)) if aug(i, set()))
+
+
+def _mentions(text, needle):
+    """Is ``needle`` in ``text``, verbatim or with its control / non-ASCII characters escaped?  ("care should be taken
+    to escape control characters", Mismatch.describe)"""
+    if needle in text:
+        return True
+    forms = [repr(needle)[1:-1], ascii(needle)[1:-1], needle.encode("unicode_escape").decode("ascii"),
+             "".join(c if c.isprintable() else repr(c)[1:-1] for c in needle)]
+    return any(f in text for f in forms)
 
 
 def _run_body(spec):
@@ -351,22 +422,29 @@ def _run_body(spec):
     expected_details = []    # (marker bytes) that must be present under distinct names
 
     class WithDetails:
-        def __init__(self, names, matches, marker):
+        """Harness matcher: records the verdict of every match() call; the second and later calls may answer
+        differently from the first (``then``)."""
+
+        def __init__(self, names, matches, marker, then=None):
             self.names, self.matches, self.marker = names, matches, marker
+            self.then = matches if then is None else then
+            self.calls = []
 
         def __str__(self):
             return "WithDetails(%r)" % (self.names,)
 
         def match(self, x):
-            if self.matches:
+            verdict = self.then if self.calls else self.matches
+            self.calls.append(verdict)
+            if verdict:
                 return None
             return Mismatch("detailed mismatch", {n: text_content("%s/%s" % (self.marker, n)) for n in self.names})
 
     steps = spec["steps"]
     env = ML.Env(None)
-    model = {"stopped_at": None, "mismatches": 0, "expect_mismatch": 0, "details": []}
-    plan = []
+    plan = []           # [step spec, matcher, documented verdict, live matchee, mismatch description or None]
     for i, st_ in enumerate(steps):
+        live, said = st_["value"], None
         if st_["kind"] == "family":
             v, o, fam = st_["value"], st_["other"], st_["family"]
             pool = [0, 1, "a"]
@@ -375,12 +453,23 @@ def _run_body(spec):
                     "assertIsInstance": lambda: isinstance(v, str), "assertIsNone": lambda: v is None}[fam]()
             matcher = None
         elif st_["kind"] == "details":
-            matcher = WithDetails(st_["matcher"]["names"], st_["matcher"]["matches"], "M%d" % i)
+            matcher = WithDetails(st_["matcher"]["names"], st_["matcher"]["matches"], "M%d" % i, st_["matcher"].get("then"))
             want = st_["matcher"]["matches"]
+            said = "detailed mismatch"
+        elif st_["kind"] == "hostile":
+            # stateless matchers over immutable matchees: a second, identical construction says what the verdict
+            # and the description are (the verdicts themselves are C06's business)
+            hs = {"kind": st_["matcher"]["kind"], "arg": st_["matcher"]["arg"], "value": st_["value"], "wrap": "none", "tuple": None, "message": ""}
+            matcher, live = build_hostile(hs)
+            try:
+                twin = build_hostile(hs)[0].match(live)
+                want, said = twin is None, (twin.describe() if twin is not None else None)
+            except Exception as e:
+                return Case([V("match-raises", "%s-%s" % (hs["kind"], type(e).__name__), "match / describe raised %r" % (e,))], True, ["match-raised"])
         else:
             matcher = ML.build(st_["matcher"], env)
             want = ML.ref(st_["matcher"], st_["value"], env)
-        plan.append((st_, matcher, want))
+        plan.append([st_, matcher, want, live, said])
 
     runner = spec.get("runner", "default")
 
@@ -389,18 +478,22 @@ def _run_body(spec):
             from testtools.twistedsupport import SynchronousDeferredRunTest as run_tests_with
         elif runner == "async-deferred":
             from testtools.twistedsupport import AsynchronousDeferredRunTest
-            run_tests_with = AsynchronousDeferredRunTest.make_factory(timeout=30)
+            run_tests_with = AsynchronousDeferredRunTest.make_factory(timeout=300)
 
         def test_body(self):
             for n in spec["user_details"]:
                 self.addDetail(n, text_content("USER/" + n))
-            for i, (st_, matcher, want) in enumerate(plan):
+            for i, (st_, matcher, want, live, said) in enumerate(plan):
                 log.append(("before", i))
-                kw = {}
-                if st_["message"]:
-                    kw["message"] = st_["message"]
-                if st_["verbose"]:
-                    kw["verbose"] = True
+                args, kw = (live, matcher), {}
+                if st_.get("positional"):
+                    # (matchee, matcher, message, verbose) is the documented parameter order of all three
+                    args += (st_["message"] or "", bool(st_["verbose"]))
+                else:
+                    if st_["message"]:
+                        kw["message"] = st_["message"]
+                    if st_["verbose"]:
+                        kw["verbose"] = True
                 try:
                     if st_["kind"] == "family":
                         v, o, msg = st_["value"], st_["other"], st_["message"]
@@ -410,11 +503,11 @@ def _run_body(spec):
                          "assertIsNot": lambda: self.assertIsNot(o, v, msg), "assertIsInstance": lambda: self.assertIsInstance(v, str, msg),
                          "assertIsNone": lambda: self.assertIsNone(v, msg)}[st_["family"]]()
                     elif st_["how"] == "expectThat":
-                        self.expectThat(st_["value"], matcher, **kw)
+                        self.expectThat(*args, **kw)
                     elif st_["how"] == "assertThat":
-                        self.assertThat(st_["value"], matcher, **kw)
+                        self.assertThat(*args, **kw)
                     else:
-                        assert_that(st_["value"], matcher, **kw)
+                        assert_that(*args, **kw)
                 except MismatchError as e:
                     log.append(("raised", i, st_["how"]))
                     caught.append((i, e))
@@ -431,37 +524,65 @@ def _run_body(spec):
             elif spec.get("ending") == "teardown-skip":
                 self.addCleanup(self.skipTest, "skip from a cleanup")
 
+        def test_sibling(self):
+            # another test of the same class: one expectation, and it matches
+            self.expectThat(0, WithDetails(["foo"], True, "SIBLING"))
+
     caught = []
     res = Ext()
     T("test_body").run(res)
+    # "exactly when match() returns a mismatch": the answer to the first match() call of an assertion is the verdict
+    # (a one-shot matchee - an iterator, a callable with side effects - has no other); the harness matcher is never
+    # asked again by the oracle
+    # descriptions of the mismatches (the tree matchers of the int / str domain are stateless, the matchees immutable)
+    for entry in plan:
+        st_, matcher, want, live, said = entry
+        if st_["kind"] in ("int", "str") and not want:
+            try:
+                inner = matcher.match(live)
+                entry[4] = inner.describe() if inner is not None else None
+            except Exception as ex:
+                vs.append(V("mismatch-error", "describe-raises", "describing the mismatch again raised %r" % (ex,)))
+
+    def requirements(st_, matcher, said):
+        """What the text of the reported MismatchError has to contain: (bucket, needle) pairs."""
+        req = []
+        if said is not None:
+            req.append(("description-lost", said))
+        if st_["message"]:
+            req.append(("message-lost", st_["message"]))
+        if st_["verbose"]:
+            req.append(("verbose-form", "Matchee:"))
+            try:
+                req.append(("verbose-form-matcher", str(matcher)))
+            except Exception:
+                pass
+        return req
+
     # what the raised MismatchError says: the value, the verbosity asked for, the annotation, the mismatch's own words
     for i, e in caught:
-        st_, matcher, want = plan[i]
-        if st_["kind"] == "family":
-            if st_["message"] and st_["message"] not in str(e):
-                vs.append(V("mismatch-error", "family-message-lost", "%s(..., %r): str(MismatchError) is %r" % (st_["family"], st_["message"], str(e)[:200])))
-            continue
+        st_, matcher, want, live, said = plan[i]
         try:
             text = str(e)
-            inner = matcher.match(st_["value"])
-            said = inner.describe() if inner is not None else None
         except Exception as ex:
             vs.append(V("mismatch-error", "str-raises", "str(MismatchError) raised %r" % (ex,)))
             continue
-        if e.matchee is not st_["value"] and e.matchee != st_["value"]:
-            vs.append(V("mismatch-error", "matchee", "MismatchError.matchee is %r, the asserted value was %r" % (e.matchee, st_["value"])))
+        if st_["kind"] == "family":
+            if st_["message"] and not _mentions(text, st_["message"]):
+                vs.append(V("mismatch-error", "family-message-lost", "%s(..., %r): str(MismatchError) is %r" % (st_["family"], st_["message"], text[:200])))
+            continue
+        if e.matchee is not live and e.matchee != live:
+            vs.append(V("mismatch-error", "matchee", "MismatchError.matchee is %r, the asserted value was %r" % (e.matchee, live)))
         if bool(e.verbose) != bool(st_["verbose"]):
             vs.append(V("mismatch-error", "verbose-flag", "%s(..., verbose=%r) raised a MismatchError with verbose=%r" % (st_["how"], st_["verbose"], e.verbose)))
-        if said is not None and said not in text:
-            vs.append(V("mismatch-error", "description-lost", "str(MismatchError) %r lacks the mismatch description %r" % (text[:200], said[:200])))
-        if st_["message"] and st_["message"] not in text:
-            vs.append(V("mismatch-error", "message-lost", "%s(..., message=%r): str(MismatchError) is %r" % (st_["how"], st_["message"], text[:200])))
-        if st_["verbose"] and "Matchee:" not in text:
-            vs.append(V("mismatch-error", "verbose-form", "verbose MismatchError lacks the matchee / matcher lines: %r" % (text[:200],)))
+        for bucket, needle in requirements(st_, matcher, said):
+            if not _mentions(text, needle):
+                vs.append(V("mismatch-error", bucket, "%s(..., message=%r, verbose=%r): str(MismatchError) %r lacks %r" % (
+                    st_["how"], st_["message"], st_["verbose"], text[:200], needle[:200])))
     # model
     stop = None
     any_expect_mismatch = False
-    for i, (st_, matcher, want) in enumerate(plan):
+    for i, (st_, matcher, want, live, said) in enumerate(plan):
         if not want:
             if st_["how"] == "expectThat":
                 any_expect_mismatch = True
@@ -482,7 +603,6 @@ def _run_body(spec):
     if stop is None:
         want_log.append(("end",))
     if log != want_log:
-        kinds = sorted({x[0] for x in log} ^ {x[0] for x in want_log})
         vs.append(V("raises-iff-mismatch", plan[min(len(log), len(plan)) - 1][0]["how"] if log else "empty",
                     "execution log %r, expected %r" % (log, want_log)))
     outs = [e for e in res.events if e[0].startswith("add")]
@@ -501,7 +621,13 @@ def _run_body(spec):
             vs.append(V("outcome", "%s-instead-of-%s" % (name, want_name), "outcome %s, expected %s (expectThat mismatch=%s, stopped at %r)" % (
                 name, want_name, any_expect_mismatch, stop)))
         det = outs[0][2].get("details") or {}
-        texts = {n: d[2] for n, d in det.items()}
+        texts = {}
+        for n, d in det.items():
+            if isinstance(d[2], bytes):
+                texts[n] = d[2]
+            else:       # the content raised when it was read: nothing of it reaches a reporter
+                texts[n] = b""
+                vs.append(V("details", "unreadable-%s" % type(d[2]).__name__, "reading detail %r raised %r" % (n, d[2])))
         for n in spec["user_details"]:
             if texts.get(n) != ("USER/" + n).encode():
                 vs.append(V("details", "user-detail-clobbered", "user detail %r is now %r" % (n, texts.get(n))))
@@ -511,13 +637,40 @@ def _run_body(spec):
                 pool.remove(marker.encode())
             else:
                 vs.append(V("details", "mismatch-detail-missing", "mismatch detail %r not delivered; got names %r" % (marker, sorted(texts))))
-        n_expect = sum(1 for i, (st_, m, w) in enumerate(plan) if not w and st_["how"] == "expectThat" and (stop is None or i < stop))
-        n_fe = sum(1 for n in texts if n.startswith("Failed expectation") and b"MismatchError" in texts[n])
+        failed = [entry for i, entry in enumerate(plan) if not entry[2] and entry[0]["how"] == "expectThat" and (stop is None or i < stop)]
+        n_expect = len(failed)
+        fe = [texts[n].decode("utf-8", "replace") for n in sorted(texts) if n.startswith("Failed expectation") and b"MismatchError" in texts[n]]
+        n_fe = len(fe)
         if n_fe != n_expect:
             vs.append(V("details", "failed-expectation-count", "%d 'Failed expectation' details for %d failed expectThat; names %r" % (n_fe, n_expect, sorted(texts))))
+        elif failed:
+            # every failed expectation is on record with what an assertThat would have raised: the mismatch's words,
+            # the annotation and, when verbose, matchee and matcher - each under a detail of its own
+            reqs = [requirements(entry[0], entry[1], entry[4]) for entry in failed]
+            acc = [[all(_mentions(t, needle) for _, needle in r) for t in fe] for r in reqs]
+            if _matching_size(acc) != n_expect:
+                k = next((k for k, row in enumerate(acc) if not any(row)), 0)
+                lacking = sorted({b for b, needle in reqs[k] if not any(_mentions(t, needle) for t in fe)}) or ["assignment"]
+                vs.append(V("details", "failed-expectation-text-" + "+".join(lacking),
+                            "expectThat(..., message=%r, verbose=%r): no 'Failed expectation' detail of its own holds %r; texts end in %r" % (
+                                failed[k][0]["message"], failed[k][0]["verbose"], [n[:80] for _, n in reqs[k]], [t[-160:] for t in fe[:3]])))
+    if runner == "default" and (any_expect_mismatch or stop is not None):
+        # a failed expectation concerns the test that made it, not the next test of the class
+        res2 = Ext()
+        T("test_sibling").run(res2)
+        outs2 = [e for e in res2.events if e[0].startswith("add")]
+        names2 = [e[0] for e in outs2]
+        fe2 = sorted(n for e in outs2 for n in (e[2].get("details") or {}) if n.startswith("Failed expectation"))
+        if names2 != ["addSuccess"] or fe2:
+            vs.append(V("outcome", "sibling-test-%s" % "+".join(names2), "a second test of the class (one matching expectThat), run after the "
+                        "failing one, ended in %r with details %r" % (names2, fe2)))
     nt = len(steps) >= 2 and (any_expect_mismatch or stop is not None)
+    kinds = {st_["kind"] for st_ in steps}
     return Case(vs, nt, ["expect-mismatch" if any_expect_mismatch else "", "stopped" if stop is not None else "ran-to-end", "ending=" + spec.get("ending", "none"),
-                         "details" if expected_details else "", "runner=" + runner, "steps>=12" if len(steps) >= 12 else ""], {"log": log[:10]})
+                         "details" if expected_details else "", "runner=" + runner, "steps>=12" if len(steps) >= 12 else "",
+                         "hostile-step" if "hostile" in kinds else "", "family-step" if "family" in kinds else "",
+                         "stateful-matcher" if any(st_["kind"] == "details" and st_["matcher"].get("then") not in (None, st_["matcher"]["matches"]) for st_ in steps) else "",
+                         "positional" if any(st_.get("positional") for st_ in steps) else ""], {"log": log[:10]})
 
 
 # ---------------------------------------------------------------- every public matcher has a str()
@@ -574,16 +727,217 @@ def custom_all_matchers(ctx):
 
 def _enum_detail_collisions():
     """Two or three failing assertions in one body whose mismatch details share names, including names that look
-    like the suffixed form of another (foo / foo-1), with and without a user detail already under that name."""
-    groups = [["foo", "foo-1"], ["foo"], ["foo-1"], ["traceback", "traceback-1"], ["Failed expectation", "Failed expectation-1"]]
+    like the suffixed form of another (foo / foo-1) or leave a gap in the suffix sequence (foo / foo-2), with and
+    without a user detail already under that name."""
+    groups = [["foo", "foo-1"], ["foo"], ["foo-1"], ["traceback", "traceback-1"], ["Failed expectation", "Failed expectation-1"], ["foo", "foo-2"]]
     def step(how, names):
         return {"how": how, "kind": "details", "matcher": {"m": "WithDetails", "names": names, "matches": False}, "value": 0, "message": "", "verbose": False}
     for g1 in groups:
         for g2 in groups:
             for how2 in ("expectThat", "assertThat"):
-                for user in ([], ["foo"], ["foo-1"], ["traceback"]):
+                for user in ([], ["foo"], ["foo-1"], ["traceback"], ["foo-2"]):
                     yield {"runner": "default", "steps": [step("expectThat", g1), step(how2, g2)], "ending": "none", "user_details": user}
             yield {"runner": "default", "steps": [step("expectThat", g1), step("expectThat", g2), step("assertThat", g1)], "ending": "none", "user_details": []}
+
+
+GRID_TEXTS = ["é", "\x00\x1b", "\U0001f600中", "'\"\\", "a\nb\r"]
+
+
+def _enum_assertion_grid():
+    """Single assertions (followed by one matching expectation), exhaustively over the dimensions that random
+    bodies reach too rarely."""
+    def body(*steps):
+        return {"runner": "default", "steps": list(steps), "ending": "none", "user_details": []}
+    tail = {"how": "expectThat", "kind": "details", "matcher": {"m": "WithDetails", "names": ["bar"], "matches": True}, "value": 0, "message": "", "verbose": False}
+    hows = ("expectThat", "assertThat", "assert_that")
+    # (a) a matcher whose second answer differs from the first
+    for how in hows:
+        for first in (False, True):
+            for then in (False, True):
+                for positional in (False, True):
+                    yield body({"how": how, "kind": "details", "matcher": {"m": "WithDetails", "names": ["foo"], "matches": first, "then": then},
+                                "value": 0, "message": "note" if positional else "", "verbose": False, "positional": positional}, tail)
+    # (b) message x verbose x positional / keyword for a plain mismatch
+    for how in hows:
+        for message in ("", "note"):
+            for verbose in (False, True):
+                for positional in (False, True):
+                    yield body({"how": how, "kind": "int", "matcher": ML.M("Equals", "int", k=3), "value": 4, "message": message,
+                                "verbose": verbose, "positional": positional}, tail)
+    # (b') a composite mismatch without children (MatchesAny of no alternatives) is a mismatch all the same
+    for how in hows:
+        for verbose in (False, True):
+            for m in (ML.M("MatchesAny", "int", inner=[]), ML.M("MatchesAll", "int", inner=[ML.M("MatchesAny", "int", inner=[])], first_only=False)):
+                yield body({"how": how, "kind": "int", "matcher": m, "value": 1, "message": "", "verbose": verbose, "positional": verbose}, tail)
+    # (b") a failed expectation followed by a skip / expected failure / skip from a cleanup, under each runner
+    for runner in ("default", "sync-deferred", "async-deferred"):
+        for ending in ("skip", "xfail", "teardown-skip"):
+            for first in (False, True):
+                b = body({"how": "expectThat", "kind": "details", "matcher": {"m": "WithDetails", "names": ["foo"], "matches": first},
+                          "value": 0, "message": "", "verbose": False, "positional": False}, tail)
+                b.update(runner=runner, ending=ending)
+                yield b
+    # (c) the assert* family over values that are equal without being identical
+    pool = [0, 1, True, "a", None]
+    for fam in ("assertEqual", "assertIn", "assertNotIn", "assertIs", "assertIsNot", "assertIsInstance", "assertIsNone"):
+        for v in pool:
+            for o in (pool if fam in ("assertEqual", "assertIs", "assertIsNot") else [0]):
+                yield body({"how": "assertThat", "family": fam, "kind": "family", "matcher": None, "value": v, "other": o,
+                            "message": "note" if v == 1 else "", "verbose": False}, tail)
+    # (d) hostile text as matchee, argument and annotation
+    for how in ("expectThat", "assertThat"):
+        for kind in ("Equals", "IsInstance", "MatchesPredicate"):
+            for t in GRID_TEXTS:
+                yield body({"how": how, "kind": "hostile", "matcher": {"m": "Hostile", "kind": kind, "arg": t + "x"}, "value": t, "message": t,
+                            "verbose": kind == "Equals", "positional": False}, tail)
+
+
+# ---------------------------------------------------------------- (5) description branches that need a particular argument
+BIG = {
+    "dict12": lambda: {"key%02d" % i: i for i in range(12)},
+    "dict12b": lambda: {"key%02d" % i: i + (i == 7) for i in range(12)},
+    "dict11": lambda: {"key%02d" % i: i for i in range(11)},
+    "list30": lambda: list(range(30)),
+    "list30b": lambda: list(range(29, -1, -1)) + [3],
+    "set30": lambda: set(range(30)),
+    "set29": lambda: set(range(29)),
+    "nested": lambda: [["a\nb", "é'\"", b"\xff\n"], {"k": ("\x00", None)}, "x" * 40],
+    "nested_b": lambda: [["a\nb", "é'\"", b"\xff\n"], {"k": ("\x00", 1.5)}, "x" * 40],
+    "long_str": lambda: "line one é\n" + "y" * 70,
+    "long_bytes": lambda: b"line one \xff\n" + b"y" * 70,
+    "none": lambda: None,
+    "huge_int": lambda: 10 ** 80,
+    "huge_int_b": lambda: 10 ** 80 + 1,
+    "float": lambda: 1.5,
+    "obj": lambda: ML.Obj("a" * 40, ["b" * 40]),
+    "tuple": lambda: ("t" * 40, 1, None, b"\xff" * 20),
+}
+PRED_TEMPLATES = ["%s is odd", "%d is odd", "%r", "%5.2f!", "<%s>", "%i%%"]       # "'%s', '%d' or '%f'" (MatchesPredicate docstring)
+PARAM_TEMPLATES = [("{0:d} is not divisible by {1:d}", "pos"), ("{0!r} vs {1!r}", "pos"), ("{} and {}", "pos"),
+                   ("{0:03d}/{k:>4}", "kw"), ("{0} !~ {k!r:>6}", "kw")]
+ISINSTANCE_TYPES = [["str", "bool"], ["str", "bytes"], ["int|str", "bytes"], ["str"], ["int|str"], ["bool", "int|str"]]
+ISINSTANCE_VALUES = ["none", "float", "long_bytes", "long_str", "list30"]
+SETWISE_KS = [[7, 8, 9], [7, 8], [7]]
+SETWISE_VALUES = [[], [1], [1, 2], [7, 1], [7], [1, 2, 3, 4], [7, 8, 9, 1], [8, 7]]
+BINARY_PAIRS = [("dict12", "dict12b"), ("dict12", "none"), ("list30", "list30b"), ("set30", "set29"), ("nested", "nested_b"), ("long_str", "long_bytes"),
+                ("long_str", "none"), ("huge_int", "huge_int_b"), ("huge_int", "long_str"), ("obj", "none"), ("tuple", "list30"), ("float", "dict12")]
+NON_EXC_INFO = ["none", "float", "long_str", "list30", "huge_int"]
+PATH_MATCHERS = ["PathExists", "DirExists", "FileExists", "DirContains", "FileContains", "HasPermissions", "SamePath", "TarballContains", "FileContains(matcher=)", "DirContains(matcher=)"]
+GRID_FS = {"file_a": "hello\n", "file_a_mode": "0644", "file_b": "x", "dir_a": ["inner", "x"], "tar_a": ["m1", "d/m3"]}
+
+
+def _enum_describe_grid():
+    for t in PRED_TEMPLATES:
+        for v in (-1, 0, 3):
+            yield {"g": "predicate", "template": t, "value": v}
+    for t, form in PARAM_TEMPLATES:
+        for v in (-1, 3):
+            yield {"g": "predicate-params", "template": t, "form": form, "k": 2, "value": v}
+    for types in ISINSTANCE_TYPES:
+        for v in ISINSTANCE_VALUES:
+            yield {"g": "isinstance", "types": types, "value": v}
+    for ks in SETWISE_KS:
+        for v in SETWISE_VALUES:
+            if sorted(ks) != sorted(v):
+                yield {"g": "setwise", "ks": ks, "value": v}
+    for ref_, actual in BINARY_PAIRS:
+        for m in ("Equals", "Is", "NotEquals", "LessThan", "GreaterThan", "_FlippedEquals"):
+            yield {"g": "binary", "m": m, "ref": ref_, "value": actual}
+    for m, ref_, actual in [("SameMembers", "list30", "list30b"), ("SameMembers", "nested", "nested_b"), ("KeysEqual", "dict12", "dict11"),
+                            ("ContainsAll", "list30b", "list30"), ("Contains", "long_str", "nested"), ("Contains", "float", "set30")]:
+        yield {"g": "binary", "m": m, "ref": ref_, "value": actual}
+    # matchees outside the documented domain: a verdict is not required of the matcher, a description of every
+    # mismatch it does return is
+    for needle in (1, "a", None):
+        for v in ("huge_int", "float", "none"):
+            yield {"g": "contains-non-container", "needle": needle, "value": v}
+    for form in ("type", "instance", "tuple"):
+        for v in NON_EXC_INFO:
+            yield {"g": "exception-non-exc_info", "form": form, "value": v}
+    for kw in (["filename"], ["line"], ["filename", "line"], ["message", "filename", "lineno", "line"]):
+        for line in (None, "src é"):
+            yield {"g": "warning-message", "kw": kw, "line": line}
+    for m in PATH_MATCHERS:
+        for name in ("missing", "file_a", "dir_a", "tar_a", "link_dangling"):
+            for flavour in ("Path", "bytes"):
+                yield {"g": "path-flavour", "m": m, "value": name, "flavour": flavour}
+
+
+def _build_direct(spec, env):
+    """-> (matcher, matchee, may_raise): may_raise marks matchees outside the matcher's documented domain."""
+    import testtools.matchers as tm
+    from testtools.matchers import _basic
+    g = spec["g"]
+    if g == "predicate":
+        return tm.MatchesPredicate(lambda x: False, spec["template"]), spec["value"], False
+    if g == "predicate-params":
+        factory = tm.MatchesPredicateWithParams(lambda x, *a, **kw: False, spec["template"])
+        return (factory(k=spec["k"]) if spec["form"] == "kw" else factory(spec["k"])), spec["value"], False
+    if g == "isinstance":
+        types = [{"int": int, "str": str, "bool": bool, "bytes": bytes, "int|str": int | str}[t] for t in spec["types"]]
+        return tm.IsInstance(*types), BIG[spec["value"]](), False
+    if g == "setwise":
+        return tm.MatchesSetwise(*[tm.Equals(k) for k in spec["ks"]]), list(spec["value"]), False
+    if g == "binary":
+        ref_, actual = BIG[spec["ref"]](), BIG[spec["value"]]()
+        m = spec["m"]
+        if m == "NotEquals":
+            actual = BIG[spec["ref"]]()            # an equal copy: the mismatching value of NotEquals
+        if m == "KeysEqual":
+            return tm.KeysEqual(ref_), actual, False
+        cls = _basic._FlippedEquals if m == "_FlippedEquals" else getattr(tm, m)
+        # ordering two values of unrelated types is not defined (TypeError of the comparison itself)
+        may_raise = m in ("LessThan", "GreaterThan") or (m == "Contains")
+        return cls(ref_), actual, may_raise
+    if g == "contains-non-container":
+        return tm.Contains(spec["needle"]), BIG[spec["value"]](), True
+    if g == "exception-non-exc_info":
+        expected = {"type": ValueError, "instance": ValueError("boom é"), "tuple": (ValueError, KeyError)}[spec["form"]]
+        return tm.MatchesException(expected), BIG[spec["value"]](), True
+    if g == "warning-message":
+        pool = {"message": tm.Equals("other"), "filename": tm.EndsWith("other.py"), "lineno": tm.Equals(99), "line": tm.Equals("other line")}
+        matchee = warnings.WarningMessage(message=UserWarning("old é"), category=UserWarning, filename="somefile.py", lineno=3, line=spec["line"])
+        return tm.WarningMessage(UserWarning, **{k: pool[k] for k in spec["kw"]}), matchee, False
+    if g == "path-flavour":
+        import os
+        import pathlib
+        m, name = spec["m"], spec["value"]
+        path = env.path(name)
+        matchee = pathlib.Path(path) if spec["flavour"] == "Path" else os.fsencode(path)
+        matcher = {"PathExists": tm.PathExists, "DirExists": tm.DirExists, "FileExists": tm.FileExists,
+                   "DirContains": lambda: tm.DirContains(["inner", "zzz"]), "FileContains": lambda: tm.FileContains("something else"),
+                   "HasPermissions": lambda: tm.HasPermissions("0123"), "SamePath": lambda: tm.SamePath(env.path("file_b")),
+                   "TarballContains": lambda: tm.TarballContains(["m1", "nope"]),
+                   "FileContains(matcher=)": lambda: tm.FileContains(matcher=tm.Equals("something else")),
+                   "DirContains(matcher=)": lambda: tm.DirContains(matcher=tm.HasLength(7))}[m]()
+        # what the wrapped os / tarfile call says about a path that is not of the expected kind is that call's business
+        may_raise = (m.startswith("FileContains") and name != "file_a") or (m == "TarballContains" and name != "tar_a") or \
+            (m == "HasPermissions" and name in ("missing", "link_dangling"))
+        return matcher, matchee, may_raise
+    raise AssertionError(spec)
+
+
+def run_direct(spec):
+    with warnings.catch_warnings():
+        warnings.simplefilter("ignore")
+        vs = []
+        tag = spec["g"] + ("-" + spec["m"] if "m" in spec else "")
+        with ML.Env(dict(GRID_FS) if spec["g"] == "path-flavour" else None) as env:
+            matcher, matchee, may_raise = _build_direct(spec, env)
+            try:
+                if not isinstance(str(matcher), str):
+                    vs.append(V("str", tag + "-type", "str(matcher) is not text"))
+            except Exception as e:
+                vs.append(V("str", "%s-raises-%s" % (tag, type(e).__name__), "str(matcher) raised %r" % (e,)))
+            try:
+                mm = matcher.match(matchee)
+            except Exception as e:
+                if not may_raise:
+                    vs.append(V("match-raises", "%s-%s" % (tag, type(e).__name__), "match(%r) raised %r" % (matchee, e)))
+                return Case(vs, True, ["group=" + spec["g"], "match-raised"])
+            if mm is not None:
+                check_mismatch(vs, tag, matcher, matchee, mm, "")
+        return Case(vs, mm is not None, ["group=" + spec["g"], "mismatch" if mm is not None else "match"])
 
 
 def subchecks(tier):
@@ -594,8 +948,16 @@ def subchecks(tier):
         Sub("text_repr_roundtrip", run_text_repr, TEXT_REPR, 5000 if q else 500000),
         Sub("assert_expect_bodies", run_body, s_body(), 800 if q else 40000),
         Sub("detail_name_collisions", run_body, enum=_enum_detail_collisions, enum_complete=True,
-            note="every pair (and some triples) of failing assertions whose mismatch details are named foo / foo-1 / traceback(-1) / "
+            note="every pair (and some triples) of failing assertions whose mismatch details are named foo / foo-1 / foo-2 / traceback(-1) / "
                  "Failed expectation(-1), x expectThat / assertThat, x a user detail already under one of the names"),
+        Sub("assertion_grid", run_body, enum=_enum_assertion_grid, enum_complete=True,
+            note="one assertion per body: stateful matcher (first / later verdict) x the three entry points x positional; message x verbose "
+                 "x positional; childless composite mismatches; endings x runners after a failed expectation; the assert* family over {0, 1, True, 'a', None}; five hostile texts x three matcher kinds"),
+        Sub("describe_grid", run_direct, enum=_enum_describe_grid, enum_complete=True,
+            note="description branches that need a particular argument: %d / %r / %f and {0:d} / {k!r:>6} predicate templates; IsInstance "
+                 "of several types; MatchesSetwise with matchers and values left over; the long (> 70 characters) form for dicts, sets, "
+                 "ints, None, objects, str against bytes; Contains / MatchesException on matchees of the wrong kind; WarningMessage "
+                 "filename= / line=; pathlib.Path and bytes paths for the filesystem matchers"),
         Sub("every_public_matcher_str", run_public, custom=custom_all_matchers),
         Sub("text_repr_fuzz", run_text_repr, custom=fuzz_custom("props.c07", "text_repr_roundtrip", "testtools.compat", 40000),
             note="atheris/libFuzzer coverage-guided campaign over the text_repr round trip (thorough tier only)"),
